@@ -746,8 +746,9 @@ class CSSSerializer(object):
             for item in rule.seq:
                 type_, val = item.type, item.value
                 # PRE
-                # the content of a string or URL is no block delimiter
-                if '}' == val and type_ not in ('STRING', 'URI'):
+                # only a '{' or '}' token is a block delimiter, not the
+                # content of a string, URL or escaped identifier
+                if '}' == val and type_ in ('CHAR', '}'):
                     # close last open item on stack
                     stackblock = stacks.pop().value()
                     if stackblock:
@@ -763,7 +764,7 @@ class CSSSerializer(object):
                     out.append(val, type_)
 
                 # POST
-                if '{' == val and type_ not in ('STRING', 'URI'):
+                if '{' == val and type_ in ('CHAR', '{'):
                     # new stack level
                     stacks.append(Out(self))
 
